@@ -89,6 +89,62 @@ static std::string run_aown(const toks_t& t)
   return "SEQ " + out;
 }
 
+// aown2 <op>...  the owner layer over TWO live sandboxes (each table issues tokens from 1: equal tokens in different
+// sandboxes).  ops: g:<k>:<s>:<ptr>  m:<k>:<j>  d:<k>  u:<k>  l:<k> (lookup through the owner, in the sandbox it belongs to)
+// t:<s>:<tok> (lookup of a raw token in sandbox s)
+static std::string run_aown2(const toks_t& t)
+{
+  std::unique_ptr<sandbox_t> sb[2];
+  for (int i = 0; i < 2; i++) {
+    sb[i] = std::make_unique<sandbox_t>();
+    Sbx::fixed_base_hint = uintptr_t(6 + i) << 44;
+    sb[i]->create_sandbox();
+  }
+  std::string out;
+  {
+    owner_t owners[3];
+    int own_sb[3] = { 0, 0, 0 };
+    for (size_t k = 1; k < t.size(); k++) {
+      toks_t o = split(t[k], ':');
+      if (!out.empty()) out += ",";
+      try {
+        if (o[0] == "g") {
+          size_t a = parse_u64(o[1]), s = parse_u64(o[2]);
+          owners[a] = sb[s]->get_app_pointer(reinterpret_cast<int*>(parse_u64(o[3])));
+          own_sb[a] = int(s);
+          out += "g=" + std::to_string(owners[a].UNSAFE_sandboxed(*sb[s]));
+        } else if (o[0] == "m") {
+          size_t a = parse_u64(o[1]), b = parse_u64(o[2]);
+          owners[a] = std::move(owners[b]);
+          own_sb[a] = own_sb[b];
+          out += "m=ok";
+        } else if (o[0] == "d") {
+          owners[parse_u64(o[1])].unregister();
+          out += "d=ok";
+        } else if (o[0] == "u") {
+          out += std::string("u=") + (owners[parse_u64(o[1])].is_unregistered() ? "1" : "0");
+        } else if (o[0] == "l") {
+          size_t a = parse_u64(o[1]);
+          auto tp = owners[a].to_tainted();
+          int* p = sb[own_sb[a]]->lookup_app_ptr(tp);
+          out += "l=" + std::to_string(reinterpret_cast<uintptr_t>(p)) + "@" + std::to_string(tp.UNSAFE_sandboxed(*sb[own_sb[a]]));
+        } else if (o[0] == "t") {
+          size_t s = parse_u64(o[1]);
+          rlbox::tainted<int*, Sbx> tp = nullptr;
+          tp.assign_raw_pointer(*sb[s], reinterpret_cast<int*>((uintptr_t(6 + s) << 44) + parse_u64(o[2])));
+          int* p = sb[s]->lookup_app_ptr(tp);
+          out += "t=" + std::to_string(reinterpret_cast<uintptr_t>(p));
+        }
+      } catch (const std::runtime_error&) {
+        out += o[0] + "=ABORT";
+        break;
+      }
+    }
+  }
+  for (int i = 0; i < 2; i++) sb[i]->destroy_sandbox();
+  return "SEQ " + out;
+}
+
 static std::string run_case(const toks_t& t)
 {
   if (t[0] == "amap") {
@@ -98,6 +154,7 @@ static std::string run_case(const toks_t& t)
     if (t[1] == "64") return run_amap<uint64_t>(t);
   }
   if (t[0] == "aown") return run_aown(t);
+  if (t[0] == "aown2") return run_aown2(t);
   return "HARNESS-ERROR op";
 }
 
